@@ -124,25 +124,25 @@ prop("C08", "exploration",
 
 # What the worlds gained after the first round (mostly from seeded changes that were missed at first; DESIGN.md §14)
 _EXT = {
- "C01": "adversary also plays on the hash function of a block's CID (the link's digest as an identity-hash block, the genuine bytes under another hash function); DAGs with empty raw leaves and codec-alias leaves (same bytes under raw and dag-cbor)",
+ "C01": "adversary also plays on the hash function of a block's CID (the link's digest as an identity-hash block, the genuine bytes under another hash function); DAGs with empty raw leaves and codec-alias leaves (same bytes under raw and dag-cbor); disk faults at the requestor: a local read may stop half way (short read with io.ErrUnexpectedEOF, or an I/O error in mid-stream) in a quarter of the runs with a local store",
  "C02": "field names that are textual prefixes of siblings, two-digit list indices, empty raw leaves, codec-alias leaves; the recorded skip-count class is the two peers' link sequences diverging within the skipped prefix",
  "C03": "empty raw leaves and codec-alias leaves",
- "C04": "buggify yields in the task workers and after the queue returns memory; refuse-heavy runs (several failure statuses per message); caller context cancelled during request set-up; back-pressure family (small responder memory allowance, optionally fail-fast sends)",
- "C05": "same additions as C04; a response reported failed on the network must not later complete successfully",
- "C23": "same additions as C04",
- "C06": "runs with a responder that lacks 30% of the blocks; empty and codec-alias leaves",
+ "C04": "buggify yields in the task workers and after the queue returns memory; refuse-heavy runs (several failure statuses per message); caller context cancelled during request set-up; back-pressure family (small responder memory allowance, optionally fail-fast sends); a third of the runs are lock-yield runs (DESIGN 13.8): a goroutine may be held before a lock acquisition of the sending path made with no instrumented lock held; signatures of the recorded queue-shutdown class and of the residual f6868ad window carry their input-class tag",
+ "C05": "same additions as C04; a response reported failed on the network must not later complete successfully; same additions as C04",
+ "C23": "same additions as C04; same additions as C04; a lock-yield point before TaskDone (never on a manager's event loop)",
+ "C06": "runs with a responder that lacks 30% of the blocks; empty and codec-alias leaves; a third of the quiet runs may hold a goroutine before TaskDone's lock (lock-yield build, function filter), which does not count against 'quiet'",
  "C07": "a second request after the first with a per-request budget of its own; 35% of responder-side runs on a responder that lacks blocks (every link tried is charged and is one metadata entry, found or not)",
- "C08": "specs wrapped in up to 150 further clauses of one kind or in rotation",
- "C09": "a second victim request; intruder messages naming r1, r2 and an unknown ID in any combination; the response data handed to each block hook must be one the genuine responder sent",
- "C10": "the other peer may come first and may be refused by a request hook; a single-worker responder kept busy by an earlier request; a coherent stale-task variant; nothing may run for a retired request of the other peer while the first peer holds the ID; a paused response stays paused",
- "C11": "all messages written to one stream with ToNet and read back one by one with FromNet from a reader with drawn fragment sizes; extension codec values start with the boundaries",
+ "C08": "specs wrapped in up to 150 further clauses of one kind or in rotation; a quarter of the runs have an admission hook that pauses the scripted peer's requests without validating them and an operator who releases them",
+ "C09": "a second victim request; intruder messages naming r1, r2 and an unknown ID in any combination; the response data handed to each block hook must be one the genuine responder sent; a third of the runs may hold a goroutine before it hands a message to the request manager's event loop (call points, DESIGN 13.8)",
+ "C10": "the other peer may come first and may be refused by a request hook; a single-worker responder kept busy by an earlier request; a coherent stale-task variant; nothing may run for a retired request of the other peer while the first peer holds the ID; a paused response stays paused; a third of the runs may hold a goroutine before it hands a message to the response manager's event loop (call points, DESIGN 13.8); the stale-task input class is keyed on the worker having taken the task before the retirement",
+ "C11": "all messages written to one stream with ToNet and read back one by one with FromNet from a reader with drawn fragment sizes; extension codec values start with the boundaries; 1 run in 25 adds a message with a 2-4 MiB block (frame near network.MessageSizeMax) to the stream",
  "C12": "request-ID byte strings of other lengths in well-framed messages; well-formed CBOR with hostile content (new request without root or selector, non-selectors, complete requests whose well-known extensions carry null or values of the wrong kind); a complete frame that does not decode is malformed whatever error the decoder names; the stream of a malformed message must be reset",
- "C15": "a ledger between the real queue and the real allocator (a release never exceeds what is reserved and not yet returned; nothing is built without a grant); a call kind whose build function adds nothing; backlog runs (callers outrun the sender)",
- "C16": "same component world as C15",
- "C17": "the order rule compares the block CIDs the receiver computes; backlog runs; more block traffic in big-block runs",
- "C18": "25% of runs are long bursts against slow subscribers (command queue backs up beyond 32 entries)",
+ "C15": "a ledger between the real queue and the real allocator (a release never exceeds what is reserved and not yet returned; nothing is built without a grant); a call kind whose build function adds nothing; backlog runs (callers outrun the sender); a third of the runs are lock-yield runs over peermanager.go, messagequeue.go, allocator.go, publisher.go (the ledger's own mutex counts as a lock held); a Disconnected is notified only after a Connected call it can belong to has returned",
+ "C16": "same component world as C15; same component world as C15",
+ "C17": "the order rule compares the block CIDs the receiver computes; backlog runs; more block traffic in big-block runs; same component world as C15",
+ "C18": "25% of runs are long bursts against slow subscribers (command queue backs up beyond 32 entries); second family: 2-3 concurrent callers over a lock-yield build of publisher.go, oracle valid for every order of overlapping calls",
  "C19": "responses may also be ended with FinishWithError and may be paused; the tracker's tables are read (lengths, by reflection) whenever a request stops being tracked or is paused",
- "C20": "one sibling may be cancelled or paused for good by its caller; a named deduplication scope with a store of its own (persistence option) that most requests of a run may use, optionally with do-not-send-cids for what that store holds; every commit is checked against the block its CID names; a loss is classified by whether a sibling that had been sent the block was still in progress at the responder",
+ "C20": "one sibling may be cancelled or paused for good by its caller; a named deduplication scope with a store of its own (persistence option) that most requests of a run may use, optionally with do-not-send-cids for what that store holds; every commit is checked against the block its CID names; a loss is classified by whether a sibling that had been sent the block was still in progress at the responder; a sibling may be held at the responder by a block hook and cancelled by its caller meanwhile; a cancelled sibling counts as gone once the responder's requestor-cancelled listener has fired; the loss classifier compares full CIDs",
  "C21": "a guarded yield between a worker's pop and StartTask; responder-side pause at a block and operator resume",
  "C22": "40% of runs build the node whose code panics without a PanicCallback option; ending without an error is accepted only for a requestor-side read, and then every loaded block must be stored; half of the reifier runs use a reifier that asks the traversal for a further block before it panics, and in 70% of those the victim is cancelled (caller context, Cancel API, responder's operator) while the block before is fetched, so that the panic follows the cancel; a responder-side panic after the last block was sent counts as reported when the response's last status on the wire is a failure",
  "C24": "the request may live in a named scope that a second, unrelated request joins at a drawn step; empty and codec-alias leaves",
